@@ -1395,3 +1395,28 @@ SPECS["C05"]["level_text"] += (' Props/C05H (track c10enc): DECODER runs (decode
     'anchored calls are NOT proved (the file header states the invariant that is missing), WorldInv.headPos is FALSE along decoder runs with anchored input '
     '(pinned example: decode_read of header-only bytes leaves a zero-count anchor on an empty deque until the next consume), and StreamChunker / StreamReader '
     'have no World-level model yet (what is needed is stated at the end of Props/C05H).')
+
+# ---- track rdrworld: C05 along the codecs' ANCHORED calls (Props/C05R) - the guard half of WorldInv and ArenaInv that Props/C05H left open
+SPECS["C05"]["lean_modules"] += ["Woodpile.Props.C05R"]
+SPECS["C05"]["theorems"] += [
+    "Woodpile.Props.C05R.enc_anchored_arenaInv",
+    "Woodpile.Props.C05R.enc_anchored_exposed_live",
+    "Woodpile.Props.C05R.enc_anchored_run_exposed_live",
+    "Woodpile.Props.C05R.enc_anchored_below_bump",
+    "Woodpile.Props.C05R.dec_anchored_guard",
+    "Woodpile.Props.C05R.dec_anchored_exposed_live",
+    "Woodpile.Props.C05R.dec_anchored_below_bump",
+    "Woodpile.Props.C05R.anchored_no_overlap",
+    "Woodpile.Props.C05R.step_good",
+]
+SPECS["C05"]["level_text"] += (' Props/C05R (track rdrworld): the item C05H left open. Along EVERY encoder / decoder run with ALL input methods '
+    '(encPrefixA / encRunA / decRunA: encode_read / decode_read = read_n into the codec\'s own arena, push of sub-slices of the returned slice, ONE push_anchor; '
+    'any parameters, policy, tuning, reader scripts, drain schedule, verdict) the invariant HInv holds: the guard Guarded (anchors ++ zs) slices, where zs is the '
+    'zero-count anchor the running call will push for the AnchoredSlice it HOLDS (empty between calls), and ArenaInv of the world in which the held slice is '
+    'registered as one more detached slice (one cache per chunk, every slice - the held one included - below the bump pointer and inside the capacity). '
+    'Between calls this gives slice_guarded / exposed_live / below_bump for the codec\'s world (enc_anchored_*, dec_anchored_*; for the ENCODER also the head '
+    'condition, i.e. the full WorldInv of Props/C05: enc_anchored_arenaInv; for the decoder the head condition is false, see C05H, and is not needed for liveness). '
+    'anchored_no_overlap: every run is a chain of micro-steps (HStep: push_copy, push of a caller-buffer range, push of a range of the held slice, register_patch, '
+    'backfill, drains, lend, read_n, push_anchor) and at EVERY micro-step - also in the middle of an anchored call - step_good holds: each slice of the iovec in '
+    'chunk k is guarded by an anchor of the deque or by the held slice\'s anchor, ArenaInv before and after, and the conclusion of C05.no_overlap (one fresh range '
+    'at or above the end of every existing slice of its chunk, the held slice included).')
